@@ -95,7 +95,7 @@ Print Assumptions C11_wmwf_rank1_unique.
 Theorem C11_souden_scale_inv (D : nat) (Pn Px phi phi' : mat) (c d eps : R) (r i : nat) :
   posdef D Pn -> (0 < c)%R -> (0 < d)%R -> solves D Pn phi Px ->
   solves D (fun i k => RtoC c * Pn i k) phi' (fun i j => RtoC d * Px i j) ->
-  (0 < fst (tr D phi))%R -> (eps <= fst (tr D phi))%R -> (eps <= d / c * fst (tr D phi))%R ->
+  (0 < Cmod (tr D phi))%R -> (eps <= Cmod (tr D phi))%R -> (eps <= d / c * Cmod (tr D phi))%R ->
   (i < D)%nat -> (r < D)%nat ->
   souden RO D phi' eps r i = souden RO D phi eps r i.
 Proof. exact (souden_scale_inv D Pn Px phi phi' c d eps r i). Qed.
